@@ -253,7 +253,8 @@ def execute(case, scratch):
                 return {"verdict": "violation", "stats": stats,
                         "violation": {"class": cls, "detail": {"via": "real subprocess", "diff": _first_diff(outs[0][1], outs[1][1]),
                                                                "groups": [outs[0][2], outs[1][2]]}}}
-        return {"verdict": "ok", "stats": stats, "nontrivial": bool(stats["faults"])}
+        return {"verdict": "ok", "stats": stats, "nontrivial": bool(stats["faults"]),
+                "obs_digest": core.jdigest({k: base[k] for k in sorted(base) if k != "set_order"})}
     finally:
         W.cleanup(top)
 
